@@ -41,6 +41,7 @@ Record xfer_facts := {
   xf_reset_stmt : list string;            (* the dispatcher statements that hand over / clear the offset, and what precedes them in their block *)
   xf_observer_state : list string;        (* sorted `self.<attr>` names used by build_mlsx_string, _build_mlsx_facts_from_stats, build_list_string, build_list_mtime, mlst, mlsd, list *)
   xf_worker_fs_calls : list string;       (* every connection.path_io call of stor_worker, "--", every one of retr_worker *)
+  xf_file_ctx_aexit : list string;        (* AsyncPathIOContext.__aexit__: an exception of close() leaves the context *)
   xf_offset_init : list string;           (* the restart_offset= / transfer_offset= keywords of the dispatcher's Connection(...) *)
   xf_backend_wiring : list string;        (* the assignments of self.path_io_factory (Server.__init__) and connection.path_io (dispatcher): callee and positional arguments *)
   (* common.py *)
